@@ -54,6 +54,8 @@ func zzNewPool(batchSize uint64, m *zzPoolModel) *mempoolImpl {
 	})
 }
 
+func zzSameNonce(a, b uint64) bool { return a == b }
+
 func zzAcctIndex(a *types.Address) int {
 	if a.String() == zzAccts[0].String() {
 		return 0
@@ -121,15 +123,52 @@ func zzPoolHist() {
 		k = 4
 	}
 	nextHash := 0
+	unknownCommitted := false // a committed block contained transactions this pool never saw
 	for step := 0; step < k; step++ {
-		switch zz.Choice("op", 3) {
+		switch zz.Choice("op", 4) {
+		case 3: // a block produced elsewhere is committed: 1..2 consecutive nonces of one account,
+			// using this pool's transaction where it holds one and an unknown hash otherwise
+			ai := zz.Choice("facct", 2)
+			cnt := 1 + zz.Choice("fcount", 2)
+			st := &ChainState{Height: m.lastHeight}
+			for j := 0; j < cnt; j++ {
+				n := m.committed[ai] + uint64(j)
+				var h *types.Hash
+				for _, s := range m.subs {
+					if s.acct == ai && s.admitted && zzSameNonce(s.nonce, n) {
+						h = types.NewHashByStr(s.hash)
+					}
+				}
+				if h == nil {
+					unknownCommitted = true
+					zz.Tag("C19.F-pending-behind-commit", true)
+					h = types.NewHashByStr("0xffffffffffffffffffffffffffffffffffffffffffffffffffffffffffffff0" + string("0123"[j+ai*2]))
+				}
+				st.TxHashList = append(st.TxHashList, h)
+			}
+			// if the highest committed nonce was unknown to the pool it cannot learn the new
+			// committed nonce: its view of this account is stale from here on (known finding)
+			lastKnown := false
+			for _, s := range m.subs {
+				if s.acct == ai && s.admitted && zzSameNonce(s.nonce, m.committed[ai]+uint64(cnt)-1) {
+					lastKnown = true
+				}
+			}
+			if !lastKnown {
+				zz.Tag("C18.F-stale-commit", true)
+			}
+			m.committed[ai] += uint64(cnt)
+			if m.nextBatch[ai] < m.committed[ai] {
+				m.nextBatch[ai] = m.committed[ai]
+			}
+			mp.CommitTransactions(st)
 		case 0: // submit one transaction
 			if nextHash >= len(zzHashes) {
 				continue
 			}
 			ai := zz.Choice("acct", 2)
 			nonce := zz.U64("nonce")
-			zz.Assume(nonce+1 >= m.committed[ai])
+			zz.Assume(nonce+2 >= m.committed[ai])
 			hi := uint64(1)
 			if zz.Thorough() {
 				hi = 2
@@ -157,7 +196,8 @@ func zzPoolHist() {
 		// C19: content queries
 		for ai := range zzAccts {
 			pn := mp.GetPendingNonceByAccount(zzAccts[ai].String())
-			zz.Assert("C19.pending-nonce>=committed", pn >= m.committed[ai])
+			// (a pool cannot learn the nonce of a committed transaction it never saw)
+			zz.Assert("C19.pending-nonce>=committed", unknownCommitted || pn >= m.committed[ai])
 		}
 		for _, s := range m.subs {
 			got := mp.GetTransaction(types.NewHashByStr(s.hash))
